@@ -32,7 +32,7 @@ func init() {
 	vc.Register(&vc.Check{
 		ID:    "C29",
 		Level: "exploration",
-		Rule:  "schedules: all interleavings up to the preemption bound (quick 2, thorough 3) of 2 writer threads x 2 lines and one Flush thread on the real GatedWriter, and of 2 writers plus RegisterHandler on the real logWriter (ring sizes 2,3), with a scheduling point at every lock operation and before every statement of the methods under test (field read-modify-writes split into read/point/write); non-trivial = at least one non-default choice",
+		Rule:  "schedules: all interleavings up to the preemption bound (quick 2, thorough 4) of 2 writer threads x 2 lines and one Flush thread on the real GatedWriter, and of 2 writers plus RegisterHandler on the real logWriter (ring sizes 2,3), with a scheduling point at every lock operation and before every statement of the methods under test (field read-modify-writes split into read/point/write); non-trivial = at least one non-default choice",
 		Assumptions: []string{
 			"statement-level sequential consistency (a data race manifests as an interleaving of the statements' reads and writes)",
 			"the underlying io.Writer and the LogHandler are harness objects whose calls are atomic",
@@ -45,7 +45,7 @@ func init() {
 func c29run(ctx *vc.Ctx) {
 	bound := 2
 	if ctx.Thorough() {
-		bound = 3
+		bound = 4
 	}
 	c29gated(ctx, bound)
 	for _, size := range []int{2, 3} {
